@@ -86,6 +86,11 @@ enum TBuild {
     RowOnly,
     /// create_node_stub + set_column_property: column store only
     Stub,
+    /// as Api, but a throw-away node is created before and one after the content and both are
+    /// deleted again: the store's id free list is non-empty, so imported nodes take a recycled low
+    /// id first and fresh high ids later (a non-initial allocator state; seeded change C13
+    /// rolled back "the id range first..=last" and was invisible on hole-free stores)
+    ApiFreedIds,
 }
 
 /// target store contents (what the store holds before the import)
@@ -102,6 +107,8 @@ fn targets(tier: Tier) -> Vec<(&'static str, GraphSpec, TBuild)> {
         ("matching_key_extra_props", matching_extra.clone(), TBuild::Api),
     ];
     v.push(("matching_key_extra_props_row_only", matching_extra.clone(), TBuild::RowOnly));
+    v.push(("disjoint_freed_ids", GraphSpec { nodes: vec![node(&["A"], vec![("k", i(9)), ("pop", i(1))]), node(&["B"], vec![("k", i(8))])], edges: vec![edge(0, 1, "R", vec![])] }, TBuild::ApiFreedIds));
+    v.push(("matching_key_extra_props_freed_ids", matching_extra.clone(), TBuild::ApiFreedIds));
     if tier == Tier::Thorough {
         v.push(("matching_key_row_only", matching.clone(), TBuild::RowOnly));
         v.push(("matching_key_extra_props_stub", matching_extra, TBuild::Stub));
@@ -112,6 +119,14 @@ fn targets(tier: Tier) -> Vec<(&'static str, GraphSpec, TBuild)> {
 fn build_target(store: &mut GraphStore, spec: &GraphSpec, how: TBuild) -> Result<(), String> {
     match how {
         TBuild::Api => build(store, spec, Builder::Api).map(|_| ()),
+        TBuild::ApiFreedIds => {
+            let before = store.create_node("Scratch");
+            build(store, spec, Builder::Api)?;
+            let after = store.create_node("Scratch");
+            store.delete_node("default", after).map_err(|e| e.to_string())?;
+            store.delete_node("default", before).map_err(|e| e.to_string())?;
+            Ok(())
+        }
         TBuild::Stub => {
             // stub nodes; relationships with properties go through the full API
             let mut ids = vec![];
